@@ -27,6 +27,10 @@ func ConvertLabelQuery(terms []*v1alpha1.LabelTerm) ([]resource.LabelQueryOption
 
 		switch term.Op {
 		case v1alpha1.LabelTerm_EQUAL:
+			if len(term.Value) == 0 {
+				return nil, status.Errorf(codes.InvalidArgument, "label query operator %v requires a value", term.Op)
+			}
+
 			labelOpts = append(labelOpts, resource.LabelEqual(term.Key, term.Value[0], opts...))
 		case v1alpha1.LabelTerm_EXISTS:
 			labelOpts = append(labelOpts, resource.LabelExists(term.Key, opts...))
@@ -35,12 +39,28 @@ func ConvertLabelQuery(terms []*v1alpha1.LabelTerm) ([]resource.LabelQueryOption
 		case v1alpha1.LabelTerm_IN:
 			labelOpts = append(labelOpts, resource.LabelIn(term.Key, term.Value, opts...))
 		case v1alpha1.LabelTerm_LT:
+			if len(term.Value) == 0 {
+				return nil, status.Errorf(codes.InvalidArgument, "label query operator %v requires a value", term.Op)
+			}
+
 			labelOpts = append(labelOpts, resource.LabelLT(term.Key, term.Value[0], opts...))
 		case v1alpha1.LabelTerm_LTE:
+			if len(term.Value) == 0 {
+				return nil, status.Errorf(codes.InvalidArgument, "label query operator %v requires a value", term.Op)
+			}
+
 			labelOpts = append(labelOpts, resource.LabelLTE(term.Key, term.Value[0], opts...))
 		case v1alpha1.LabelTerm_LT_NUMERIC:
+			if len(term.Value) == 0 {
+				return nil, status.Errorf(codes.InvalidArgument, "label query operator %v requires a value", term.Op)
+			}
+
 			labelOpts = append(labelOpts, resource.LabelLTNumeric(term.Key, term.Value[0], opts...))
 		case v1alpha1.LabelTerm_LTE_NUMERIC:
+			if len(term.Value) == 0 {
+				return nil, status.Errorf(codes.InvalidArgument, "label query operator %v requires a value", term.Op)
+			}
+
 			labelOpts = append(labelOpts, resource.LabelLTENumeric(term.Key, term.Value[0], opts...))
 		default:
 			return nil, status.Errorf(codes.Unimplemented, "unsupported label query operator: %v", term.Op)
